@@ -107,14 +107,14 @@ theorem unpack_alloc_bound (t : UInt8) (p : Bytes) : Go.makeBytes t p ≤ 8 * p.
               by_cases h8 : 8 ≤ p.length
               · rw [gint32_ok _ (by simp only [List.length_drop]; omega)] at hq
                 simp only [Res.ok_bind] at hq
-                unfold gint16 need at hq
-                rw [if_pos (by simp only [List.length_drop]; omega)] at hq
+                unfold gint16 at hq
+                rw [need_panic _ _ (by simp only [List.length_drop]; omega)] at hq
                 cases hq
-              · unfold gint32 need at hq
-                rw [if_pos (by simp only [List.length_drop]; omega)] at hq
+              · unfold gint32 at hq
+                rw [need_panic _ _ (by simp only [List.length_drop]; omega)] at hq
                 cases hq
-            · unfold gint32 need at hq
-              rw [if_pos (by omega)] at hq
+            · unfold gint32 at hq
+              rw [need_panic _ _ (by omega)] at hq
               cases hq
         omega
     · omega
@@ -126,7 +126,7 @@ theorem unpack_alloc_bound (t : UInt8) (p : Bytes) : Go.makeBytes t p ≤ 8 * p.
         · have hq' : q.length ≤ p.length := by
             by_cases h2 : 2 ≤ p.length
             · rw [gint16_ok _ h2] at hq; cases hq; simp only [List.length_drop]; omega
-            · unfold gint16 need at hq; rw [if_pos (by omega)] at hq; cases hq
+            · unfold gint16 at hq; rw [need_panic _ _ (by omega)] at hq; cases hq
           omega
       · omega
     · omega
